@@ -124,7 +124,21 @@ def r2(ctx):
             if users:
                 yield VIOL("C16-R2", "parse/unchecked-use:" + t["callee"].split("::")[-1], "result of %s is unwrapped instead of matched" % t["callee"], where=b.span_of_block(users[0][0]))
                 continue
-            sw = [a for a in b.live_blocks() if (b.cond_of_switch(a) or {}).get("kind") == "discr" and (b.cond_of_switch(a)["place"]["local"] == d or root_local(b, {"copy": {"local": b.cond_of_switch(a)["place"]["local"], "proj": []}}) == d)]
+            def tests_d(a):
+                c_ = b.cond_of_switch(a) or {}
+                if c_.get("kind") != "discr":
+                    return False
+                pl_ = c_["place"]
+                if pl_["local"] == d or root_local(b, {"copy": {"local": pl_["local"], "proj": []}}) == d:
+                    return True
+                # `let (Some(a), Some(b)) = (f(), g()) else ..`: field k of a tuple built in place
+                fs_ = [e for e in pl_["proj"] if isinstance(e, dict) and "field" in e]
+                sd = b.single_def(pl_["local"])
+                if fs_ and sd and sd["kind"] == "assign" and sd["stmt"]["rv"].get("tuple") and fs_[0]["idx"] < len(sd["stmt"]["rv"]["ops"]):
+                    o_ = sd["stmt"]["rv"]["ops"][fs_[0]["idx"]]
+                    return op_local(o_) == d or root_local(b, o_) == d
+                return False
+            sw = [a for a in b.live_blocks() if tests_d(a)]
             okm = False
             for a in sw:
                 succs = b.succ(a)
